@@ -37,6 +37,7 @@ ChildrenOf(nd) ==
       [] nd.k = "map" -> {nd.inner} \cup {nd.its[i].n : i \in 1 .. Len(nd.its)}
       [] nd.k = "with" -> {nd.inner}
       [] nd.k = "cached" -> {nd.inner}
+      [] nd.k = "logged" -> {nd.inner}
       [] nd.k = "ds" -> NZ({nd.dflt, nd.disp})
       [] nd.k = "dsof" -> {nd.base}
       [] nd.k = "fnapp" -> SeqToSet(nd.args)
@@ -125,6 +126,7 @@ Observe ==
                restrict |-> LET k == KeysOf(Root, o) IN IF k.ok THEN Restrict(o, k.ks) ELSE EmptyD,
                permit |-> Permit(Root, o), dem |-> Dem(Root, o), cacheslazy |-> CachesLazy(Root, o),
                valruns |-> LET vr == ValRuns(Root, o) IN vr \cup {BaseOf(m) : m \in vr},
+               maylog |-> MayLog(Root, o), mustlog |-> MustLog(Root, o), nolog |-> NoLog(Root, o),
                swallows |-> Swallows(Root, o) \/ LET k == KeysOf(Root, o) IN k.ok /\ Swallows(Root, Restrict(o, k.ks)),
                visited |-> {x.n : x \in Visit(Root, o)} \cup {BaseOf(x.n) : x \in Visit(Root, o)},
                raises |-> Raises, hist |-> hist,
